@@ -210,6 +210,9 @@ package ecscache
 //@   requires mw != nil && mw.cloner != nil && ref(mw.cache) != 0 && ref(mw.ecsCache) != 0 && cr != nil && resp != nil
 //@   requires validRRs(resp.Answer) && validRRs(resp.Ns) && validRRs(resp.Extra)
 //@   modifies heap, lastLowest, csets, csetKey, csetVal, csetExp, hst, ipBytes
+// What the cache keeps is a message of its own, not the response that is then
+// given the client's own subnet option and written out.
+//@   atcall SetWithExpire assert the-cache-keeps-its-own-copy: arg2 != nil && arg2.msg != nil && arg2.msg != resp
 //@   ensures only-the-matching-cache: forall c any :: c != (respIsECSDependent ? mw.ecsCache : mw.cache) ==> csets[c] == old(csets[c])
 //@   ensures leaves-the-response-alone: old(ecsNone(resp)) ==> ecsNone(resp)
 //@   ensures resp.Extra == old(resp.Extra) && (forall i int :: 0 <= i && i < len(resp.Extra) ==> resp.Extra[i] == old(resp.Extra[i]))
